@@ -8,6 +8,7 @@ import (
 	"sync"
 
 	"github.com/M2MGateway/go-smpp/coding"
+	"github.com/M2MGateway/go-smpp/pdu"
 )
 
 func init() {
@@ -350,6 +351,37 @@ func corrC17(r *Run) {
 			}
 		}
 	}
+	// ---- 4b. every entry point that encodes: Encoder (above), ShortMessage.Compose, ComposeMultipartShortMessage
+	for _, t := range []string{"Łódź", "Dvořák", "Ґ", "ְשלום", "日本©", "가¢", "Ā", "naïve café", "Жук", "שלום", "日本語", "안녕", "\U0001F48A", "€uro", "a\u0085b"} {
+		entryPoints(r, t, []coding.DataCoding{coding.Latin1Coding, coding.CyrillicCoding, coding.HebrewCoding, coding.UCS2Coding, coding.ShiftJISCoding, coding.EUCKRCoding}, "corpus")
+	}
+	nEP := r.N(14, 250)
+	for _, d := range detectList {
+		if d.dc == coding.GSM7BitCoding || d.dc == coding.ASCIICoding {
+			continue
+		}
+		a := alph[d.dc]
+		bad := badSet(d.dc) // runes the detector's table admits for this coding although its encoder rejects them
+		for i := 0; i < nEP; i++ {
+			ln := 40
+			if i%4 == 3 {
+				ln = 400 // several segments
+			}
+			text := genText(r, a, ln, false)
+			if i%3 != 2 && len(bad) > 0 {
+				for k, n := 0, 1+r.Rng.Intn(2); k < n; k++ {
+					x := bad[r.Rng.Intn(len(bad))]
+					at := r.Rng.Intn(len(text) + 1)
+					text = append(text[:at], append([]rune{x.lo + rune(r.Rng.Intn(int(x.hi-x.lo)+1))}, text[at:]...)...)
+				}
+			}
+			dcs := []coding.DataCoding{d.dc}
+			if i%5 == 0 {
+				dcs = append(dcs, coding.UCS2Coding, coding.ISO2022JPCoding, coding.EUCJPCoding)
+			}
+			entryPoints(r, string(text), dcs, d.name+" text")
+		}
+	}
 	// ---- 5. decoders on random sequences of valid codes (not only encoder images)
 	nSeq := r.N(25, 400)
 	for _, cs := range charsetList {
@@ -369,6 +401,138 @@ func corrC17(r *Run) {
 				r.Fail("text/"+cs.name+"/decoder-fails", "decoder failed on a sequence of valid codes", din, fmt.Sprintf("ok=%v panic=%v", dok, dpan), "a text")
 			}
 			r.Case(din, fmt.Sprintf("same_out (decode_dc %d %s) %s", byte(cs.dc), coqHex(b), coqOutRunes(d, dok, dpan)))
+		}
+	}
+}
+
+// conformsText: do the octets stored for text s under data_coding dc satisfy C17?  "" when they do, else
+// (class suffix, required).  GSM 7-bit (C08/C09) is out of scope here.
+func conformsText(dc coding.DataCoding, s string, octets []byte) (cls, required string) {
+	base := dc
+	for _, cs := range charsetList {
+		same := false
+		guard(func() { same = dc.Encoding() != nil && cs.dc.Encoding() == dc.Encoding() })
+		if same {
+			base = cs.dc
+			break
+		}
+	}
+	if dc == coding.Latin1Coding {
+		base = dc
+	}
+	switch base {
+	case coding.Latin1Coding, coding.CyrillicCoding, coding.HebrewCoding, coding.ASCIICoding:
+		var want []byte
+		for _, x := range s {
+			var c int
+			var b byte
+			if base == coding.ASCIICoding {
+				if x > 0x7F {
+					return "", "" // nothing is claimed beyond U+007F
+				}
+				c, b = 0, byte(x)
+			} else {
+				c, b = refSingle(base, x)
+			}
+			if c == 2 {
+				return "altered-instead-of-rejected", fmt.Sprintf("an error: %s is not in the code", uplus(x))
+			}
+			want = append(want, b)
+		}
+		if string(want) != string(octets) {
+			return "wrong-octets", fmt.Sprintf("octets %x", want)
+		}
+	case coding.UCS2Coding:
+		var want []byte
+		for _, x := range s {
+			want = append(want, refUTF16BE(x)...)
+		}
+		if string(want) != string(octets) {
+			return "wrong-octets", fmt.Sprintf("octets %x", want)
+		}
+	case coding.ShiftJISCoding, coding.EUCJPCoding, coding.EUCKRCoding, coding.ISO2022JPCoding:
+		if strings.ContainsRune(s, 0x1b) && base == coding.ISO2022JPCoding {
+			return "", ""
+		}
+		d, ok, pan := implDecode(dc, octets)
+		if pan || !ok || d != s {
+			return "altered", fmt.Sprintf("octets that decode to %q (or an error)", s)
+		}
+	}
+	return "", ""
+}
+
+// entryPoints: the same text through every public entry point that encodes.  A text the coding cannot
+// represent must come back as an error from each of them - never as octets that mean something else.
+func entryPoints(r *Run, s string, dcs []coding.DataCoding, bucket string) {
+	runes := []rune(s)
+	hx := hex.EncodeToString([]byte(s))
+	// ShortMessage.Compose (coding chosen by BestCoding)
+	{
+		in := "compose " + hx
+		var m pdu.ShortMessage
+		var err error
+		pan, _ := guard(func() { err = m.Compose(s) })
+		r.Count(in, len(s) > 0, bucket+": Compose")
+		if pan {
+			r.Fail("compose/panic", "Compose panicked", in, "panic", "a message or an error")
+		} else if err == nil && m.DataCoding != coding.GSM7BitCoding {
+			name := csName(m.DataCoding)
+			if cls, req := conformsText(m.DataCoding, s, m.Message); cls != "" {
+				r.Fail("compose/"+name+"/"+cls, "Compose stored octets that are not the coding's encoding of the text (altered, not rejected)",
+					in, fmt.Sprintf("data_coding=%d octets=%x", byte(m.DataCoding), m.Message), req)
+			}
+			r.Case(in, fmt.Sprintf("same_out (encode_dc %d %s) (Ok %s)", byte(m.DataCoding), coqRunes(runes), coqHex(m.Message)))
+		}
+	}
+	// ComposeMultipartShortMessage (coding given by the caller)
+	for _, dc := range dcs {
+		if dc.Encoding() == nil || dc == coding.GSM7BitCoding {
+			continue
+		}
+		in := fmt.Sprintf("multipart %d %s", byte(dc), hx)
+		var parts []pdu.ShortMessage
+		var err error
+		pan, _ := guard(func() { parts, err = pdu.ComposeMultipartShortMessage(s, dc, 0x1234) })
+		r.Count(in, len(s) > 0, bucket+": ComposeMultipartShortMessage")
+		name := csName(dc)
+		if pan {
+			r.Fail("multipart/"+name+"/panic", "ComposeMultipartShortMessage panicked", in, "panic", "parts or an error")
+			continue
+		}
+		_, rejected := firstRejected(dc, s)
+		if err != nil {
+			if !rejected && err != pdu.ErrShortMessageTooLarge && err != pdu.ErrMultipartTooMuch {
+				r.Fail("multipart/"+name+"/rejected-representable-text", "a text the coding can represent was rejected", in, fmt.Sprintf("error %v", err), "parts")
+			}
+			if rejected {
+				r.Case(in, fmt.Sprintf("same_out (encode_dc %d %s) (Err EText)", byte(dc), coqRunes(runes)))
+			}
+			continue
+		}
+		// each part carries a segment; together they must be the text, encoded by the standard
+		var all []byte
+		var back strings.Builder
+		for _, p := range parts {
+			all = append(all, p.Message...)
+			d, _, _ := implDecode(dc, p.Message)
+			back.WriteString(d)
+		}
+		cls, req := "", ""
+		switch {
+		case dc == coding.ISO2022JPCoding:
+			if !strings.ContainsRune(s, 0x1b) && back.String() != s {
+				cls, req = "altered", fmt.Sprintf("parts that decode to %q (or an error)", s)
+			}
+		default:
+			cls, req = conformsText(dc, s, all)
+		}
+		if cls != "" {
+			r.Fail("multipart/"+name+"/"+cls, "ComposeMultipartShortMessage produced octets that are not the coding's encoding of the text",
+				in, fmt.Sprintf("%d parts, octets=%x", len(parts), all), req)
+		}
+		if dc != coding.ISO2022JPCoding || len(parts) == 1 {
+			r.Case(in, fmt.Sprintf("same_out (encode_dc %d %s) (Ok %s)", byte(dc), coqRunes(runes), coqHex(all)))
 		}
 	}
 }
